@@ -45,6 +45,7 @@ namespace bxdecay0 {
 
   void Kr82low(i_random & prng_, event & event_, const int levelkev_)
   {
+    BXDECAY0_VERIF_SCOPE("scheme:Kr82low", levelkev_);
     double tdlev;
     double p;
     double tclev;
